@@ -59,7 +59,7 @@ def gen(rng, tier, idx):
                 chi=rng.choice([0, 1]), adiabatic=rng.random() < 0.75, rseed=rng.randrange(1 << 30),
                 complex_rho=rng.random() < 0.15, B=rng.choice([None, None, 1.0, 0.6, 1.7]) if kind == 'pipeline' else None,
                 Te_user=[rng.choice([0.5, 1.0, 2.5]), rng.choice([0.0, 0.4, -0.3]), rng.choice([3.0, 7.0])] if (kind == 'pipeline' and rng.random() < 0.25) else None, amp=rng.choice([1.0, 1.0, 1.0, 1e-9, 1e-12, 1e6]), twice=rng.random() < 0.4, regrid=rng.random() < 0.4, start=rng.choice(['flux_surface', 'v_parallel', 'poloidal']),
-                sched=sched)
+                other_solver_first=rng.random() < 0.3, sched=sched)
 
 
 def density(case):
@@ -90,6 +90,15 @@ def run_pipeline(case, tape):
         def rank_fn(comm, rank, alt=alt):
             f, constants = phys.setup_f(comm, ckw, 'v_parallel')
             phys.check_forced(f, g)
+            if case.get('other_solver_first'):
+                # another solver, for other physics, built earlier in the same process on the same radial grid
+                # (round 11): nothing it leaves behind may reach the solver under test
+                from pygyro.poisson.poisson_solver import QuasiNeutralitySolver
+                okw = dict(B=2.3, Te=phys.user_Te([1.7, -0.2, 5.0]))
+                if case['adiabatic']:
+                    QuasiNeutralitySolver(f.eta_grid[:3], 7, f.getSpline(0), constants, adiabaticElectrons=False, **okw)
+                else:
+                    QuasiNeutralitySolver(f.eta_grid[:3], 7, f.getSpline(0), constants, chi=1 - case['chi'], **okw)
             pipe = phys.Pipeline(comm, f, constants, chi=case['chi'], adiabatic=case['adiabatic'], B=case.get('B'),
                                  opts=dict(Te_user=case.get('Te_user')))
             rho, phi, QN = pipe.rho, pipe.phi, pipe.QN
